@@ -46,7 +46,8 @@ def run(ctx):
     rep.guarded("digits", C + "DisplayBuffer::write_code", lambda: rule_digits(facts, rep))
     rep.guarded("order", S, lambda: rule_order(facts, rep))
     rep.guarded("no-padding", "anstyle", lambda: rule_no_padding(facts, rep, "anstyle", "C05"))
-    for r, n in (("effects", 13), ("ansi", 4), ("templates", 12), ("digits", 4), ("order", 16), ("no-padding", 20)):
+    rep.guarded("io-path", "anstyle", lambda: rule_io_path(facts, rep))
+    for r, n in (("effects", 13), ("ansi", 4), ("templates", 12), ("digits", 4), ("order", 16), ("no-padding", 20), ("io-path", 3)):
         rep.floor(r, n)
 
 
@@ -97,6 +98,45 @@ def rule_effects(facts, rep):
     e = ac.single_expr(rd["hir"])
     rep.check(hir.is_call(e, "core::fmt::Formatter::<'a>::write_str") and hir.is_def(e["args"][1], "reset::RESET"), "effects", rd["path"],
               "writes-RESET", "", loc(rd))
+
+
+def rule_io_path(facts, rep):
+    """The io::Write path hands bytes over with `write_all` only: `Write::write` may accept a prefix and say so in a count that
+    nothing here looks at, so a single call of it anywhere in the crate's rendering code can drop the tail of an escape sequence
+    (who-may-call rule over the resolved callees of the whole crate; and the buffer handed over is the whole rendered text)."""
+    users, alls = [], 0
+    for b in facts.bodies("anstyle"):
+        if "hir" not in b or b.get("expn") or "::tests::" in b["path"] or "::test::" in b["path"]:
+            continue
+        for n in hir.walk(b["hir"]):
+            if n.get("k") == "call" and hir.callee_decl(n) == "std::io::Write::write":
+                users.append(f"{b['path']} (line {n.get('ln')})")
+            if n.get("k") == "call" and hir.callee_decl(n) == "std::io::Write::write_all":
+                alls += 1
+    rep.check(not users, "io-path", "anstyle", "only-write_all", f"partial-write API used on the io::Write path: {users}", "")
+    rep.check(alls >= 3, "io-path", "anstyle", "write_all-sites-found", f"{alls} write_all call sites (DisplayBuffer, Effects, reset)", "")
+    w = facts.body("anstyle", C + "DisplayBuffer::write_to")
+    rep.fn(w["path"])
+    import abseval
+    got = []
+    try:
+        ev = abseval.Evaluator(facts, "anstyle", {"std::io::Write::write_all": lambda a_: (got.append(a_[1]), ("ok", ("unit",)))[1],
+                                                  C + "DisplayBuffer::as_str": lambda a_: ("text-of", a_[0]),
+                                                  "core::str::<impl str>::as_bytes": lambda a_: a_[0],
+                                                  "load:self.buffer": lambda a_: ("bytes-of-buffer", a_[0])})
+        env = abseval.Env()
+        env.update({"self": ("sym", "buf"), "self.len": ("sym", "len"), w["params"][1]["name"]: ("sym", "w")})
+        try:
+            r = ev.ev(w["hir"], env)
+        except abseval.Return as rt:
+            r = rt.v
+        whole = got in ([("text-of", ("sym", "buf"))], [("bytes-of-buffer", ("rec", {"end": ("sym", "len")}))],
+                        [("bytes-of-buffer", ("rec", {"start": ("int", 0), "end": ("sym", "len")}))])
+        ok = whole and r == ("ok", ("unit",))
+        why = f"writes {got}, returns {r}"
+    except Unrecognised as ex:
+        ok, why = False, f"not evaluable: {ex}"
+    rep.check(ok, "io-path", w["path"], "whole-buffer-with-write_all", f"write_to is write_all of buffer[..len] (as_str), its result returned: {why}"[:300], loc(w))
 
 
 def rule_ansi(facts, rep):
